@@ -8,11 +8,11 @@ PROP = dict(
     ],
     assumptions=[
         "Merkle-proof theorems assume only that H returns 32 bytes; collision resistance of double SHA-256 is not assumed: the statements end in '... or two different byte strings with the same double hash exist'",
-        "theorems are about expanded tries (no hash nodes inside); Flush/Collapse/reload from the store are the identity in the model and tied by correspondence",
+        "the store theorems assume a well-keyed store that has an entry for every node hash of the trie (what Flush produces: C10_flush_store); reference counting and GC records are not modelled (C11)",
     ],
     modelled="pkg/core/mpt is modelled (same case split as trie.go/batch.go/billet.go/proof.go), not translated; reference counting, GC and the store itself are not modelled (C11)",
 )
 META = dict(
-    text="Proved in Coq for all tries/keys/operation sequences and any hash function: Put/Delete/PutBatch update the content like a finite map and keep the normal form of doc.go; the normal form is unique, so any two histories of puts, deletes and batches with the same final content give the same tree and root (= root of a fresh trie built from the content); collapsing keeps the root; Get, the sorted listing, ordered traversal in both directions with any start point, TrieStore.Seek and Trie.Find equal the range query on the content; a membership proof of a present key verifies, and whatever byte strings are supplied a verified value is the stored one, unless two different strings with the same double hash are exhibited. The model follows the mechanism of pkg/core/mpt and is tied to the real mpt.Trie / TrieStore / VerifyProof by differential evaluation (histories with Flush/Collapse/reopen in three storage modes, tampered proofs, malformed node encodings) with byte-equal state roots through an executable SHA-256. Partial: lazy expansion of hash nodes through the store is covered by the correspondence only. Five defects of the unchanged code are reported as known findings (F3, F24, F25, F26, F27); the model specifies the repaired behaviour.",
+    text="Proved in Coq for all tries/keys/operation sequences and any hash function: Put/Delete/PutBatch update the content like a finite map and keep the normal form of doc.go; the normal form is unique, so any two histories of puts, deletes and batches with the same final content give the same tree and root (= root of a fresh trie built from the content); collapsing keeps the root; Get, the sorted listing, ordered traversal in both directions with any start point, TrieStore.Seek and Trie.Find equal the range query on the content; a membership proof of a present key verifies, and whatever byte strings are supplied a verified value is the stored one, unless two different strings with the same double hash are exhibited. The model follows the mechanism of pkg/core/mpt and is tied to the real mpt.Trie / TrieStore / VerifyProof by differential evaluation (histories with Flush/Collapse/reopen in three storage modes, tampered proofs, malformed node encodings) with byte-equal state roots through an executable SHA-256. Flush, Collapse, lazy expansion of hash nodes and reopening from the root are modelled over a node store and proved transparent: every operation on any partial collapse of a flushed trie (Get, Put, Delete, PutBatch, GetProof, Seek) returns what it returns on the expanded trie, with the same root, up to an exhibited collision; the decoder inverts the encoder. Five defects of the unchanged code are reported as known findings (F3, F24, F25, F26, F27); the model specifies the repaired behaviour.",
     note="Trusted: Coq kernel and vm_compute, the hand-written model (tie is differential, not by translation), Sha256.v as a correspondence-checked component, the Go harness, ./check. Assumed: digest length 32 bytes; nothing else about the hash.",
 )
